@@ -356,4 +356,354 @@ theorem evalStmts_locks {env : VEnv} {S D : Acct → Prop} (hV : ∀ a, IsVarAcc
       (fun a ha => hL a (by simp only [List.flatMap_cons, List.mem_append]; exact Or.inr ha))
     exact a1.trans a2
 
+/-! ### source accounts are literals of the source or account variables (so `lockWrite ⊆ lockRead`) -/
+
+mutual
+theorem sourceAccts_origin (env : VEnv) : (s : Source) → ∀ a ∈ sourceAccts env s, a ∈ sourceLits s ∨ IsVarAcct env a
+  | .acct e od, a, ha => by
+    simp only [sourceAccts] at ha
+    cases he : evalAcct env e with
+    | error er => simp [he] at ha
+    | ok x =>
+      simp only [he, List.mem_singleton] at ha
+      subst ha
+      rcases evalAcct_origin he with h | h
+      · left; simp only [sourceLits, List.mem_append]; exact Or.inl h
+      · exact Or.inr h
+  | .maxed cap s, a, ha => by
+    simp only [sourceAccts] at ha
+    rcases sourceAccts_origin env s a ha with h | h
+    · left; simp only [sourceLits, List.mem_append]; exact Or.inl h
+    · exact Or.inr h
+  | .inorder ss, a, ha => by
+    simp only [sourceAccts] at ha
+    rcases sourcesAccts_origin env ss a ha with h | h
+    · left; simpa only [sourceLits] using h
+    · exact Or.inr h
+theorem sourcesAccts_origin (env : VEnv) : (ss : SourceList) → ∀ a ∈ sourcesAccts env ss, a ∈ sourcesLits ss ∨ IsVarAcct env a
+  | .nil, a, ha => by simp [sourcesAccts] at ha
+  | .cons s rest, a, ha => by
+    simp only [sourcesAccts, List.mem_append] at ha
+    rcases ha with ha | ha
+    · rcases sourceAccts_origin env s a ha with h | h
+      · left; simp only [sourcesLits, List.mem_append]; exact Or.inl h
+      · exact Or.inr h
+    · rcases sourcesAccts_origin env rest a ha with h | h
+      · left; simp only [sourcesLits, List.mem_append]; exact Or.inr h
+      · exact Or.inr h
+end
+
+theorem stmtSources_origin (env : VEnv) (s : Stmt) : ∀ a ∈ stmtSources env s, a ∈ stmtLits s ∨ IsVarAcct env a := by
+  intro a ha
+  cases s with
+  | send amt src d =>
+    simp only [stmtSources] at ha
+    cases src with
+    | src s0 =>
+      simp only [vsourceAccts] at ha
+      rcases sourceAccts_origin env s0 a ha with h | h
+      · left; simp only [stmtLits, List.mem_append]; exact Or.inl (Or.inr h)
+      · exact Or.inr h
+    | allot items =>
+      simp only [vsourceAccts, List.mem_flatMap] at ha
+      obtain ⟨it, hit, hin⟩ := ha
+      rcases sourceAccts_origin env it.2 a hin with h | h
+      · left; simp only [stmtLits, List.mem_append, List.mem_flatMap]; exact Or.inl (Or.inr ⟨it, hit, h⟩)
+      · exact Or.inr h
+  | _ => simp [stmtSources] at ha
+
+/-! ### the lists `lockRead` / `lockWrite` are built from -/
+
+theorem mem_dedupFold {α : Type} [BEq α] [LawfulBEq α] (l acc : List α) (x : α) :
+    x ∈ l.foldl (fun acc x => if acc.contains x then acc else acc ++ [x]) acc ↔ x ∈ acc ∨ x ∈ l := by
+  induction l generalizing acc with
+  | nil => simp
+  | cons y ys ih =>
+    rw [List.foldl_cons, ih]
+    by_cases hc : acc.contains y = true
+    · have hy : y ∈ acc := List.contains_iff_mem.mp hc
+      rw [if_pos hc]
+      simp only [List.mem_cons]
+      constructor
+      · rintro (h | h)
+        · exact Or.inl h
+        · exact Or.inr (Or.inr h)
+      · rintro (h | h | h)
+        · exact Or.inl h
+        · exact Or.inl (h ▸ hy)
+        · exact Or.inr h
+    · rw [if_neg hc]
+      simp only [List.mem_append, List.mem_singleton, List.mem_cons, List.not_mem_nil, or_false]
+      constructor
+      · rintro ((h | h) | h)
+        · exact Or.inl h
+        · exact Or.inr (Or.inl h)
+        · exact Or.inr (Or.inr h)
+      · rintro (h | h | h)
+        · exact Or.inl (Or.inl h)
+        · exact Or.inl (Or.inr h)
+        · exact Or.inr h
+
+theorem mem_dedupSorted (l : List String) (x : String) : x ∈ dedupSorted l ↔ x ∈ l := by
+  unfold dedupSorted
+  rw [List.mem_mergeSort, mem_dedupFold]
+  simp
+
+theorem lockWrite_eq (P : Script) (env : VEnv) :
+    lockWrite P env = dedupSorted ((P.stmts.flatMap (stmtSources env)).filter (· ≠ "world")) := by
+  unfold lockWrite
+  congr
+
+theorem mem_lockWrite {P : Script} {env : VEnv} {a : Acct} :
+    a ∈ lockWrite P env ↔ a ∈ P.stmts.flatMap (stmtSources env) ∧ a ≠ "world" := by
+  rw [lockWrite_eq, mem_dedupSorted, List.mem_filter]
+  simp
+
+/-- the account-typed variables with their values -/
+def varAccts (P : Script) (env : VEnv) : List Acct :=
+  P.vars.filterMap (fun d => if d.ty = .account then (match lookupVar env d.name with | some (.acct a) => some a | _ => none) else none)
+
+theorem lockRead_eq (P : Script) (env : VEnv) :
+    lockRead P env = dedupSorted ((P.vars.flatMap declLits ++ P.stmts.flatMap stmtLits ++ varAccts P env).filter (· ≠ "world")) := by
+  unfold lockRead varAccts
+  congr
+
+theorem mem_lockRead {P : Script} {env : VEnv} {a : Acct} :
+    a ∈ lockRead P env ↔
+      (a ∈ P.vars.flatMap declLits ∨ a ∈ P.stmts.flatMap stmtLits ∨ a ∈ varAccts P env) ∧ a ≠ "world" := by
+  rw [lockRead_eq, mem_dedupSorted, List.mem_filter, List.mem_append, List.mem_append]
+  simp [or_assoc]
+
+theorem mem_varAccts {P : Script} {env : VEnv} {a : Acct} {d : VarDecl} (hd : d ∈ P.vars) (ht : d.ty = .account)
+    (hl : lookupVar env d.name = some (.acct a)) : a ∈ varAccts P env := by
+  unfold varAccts
+  rw [List.mem_filterMap]
+  exact ⟨d, hd, by simp [ht, hl]⟩
+
+/-! ### the environment `prepare` builds: only variables declared `account` hold an account -/
+
+/-- every account value in `env` belongs to a name declared (in `decls`) with type `account` -/
+def EnvTyped (decls : List VarDecl) (env : VEnv) : Prop :=
+  ∀ n a, (n, Val.acct a) ∈ env → ∃ d ∈ decls, d.name = n ∧ d.ty = .account
+
+theorem parseValue_acct {ty : Ty} {raw : String} {a : Acct} (h : parseValue ty raw = some (.acct a)) : ty = .account := by
+  cases ty with
+  | account => rfl
+  | asset => simp only [parseValue] at h; split at h <;> cases h
+  | number => simp only [parseValue, Option.map_eq_some_iff] at h; obtain ⟨_, _, h⟩ := h; cases h
+  | string => simp only [parseValue] at h; cases h
+  | portion => simp only [parseValue, Option.map_eq_some_iff] at h; obtain ⟨_, _, h⟩ := h; cases h
+  | monetary =>
+    simp only [parseValue] at h
+    split at h
+    · split at h
+      · split at h <;> cases h
+      · cases h
+    · cases h
+
+theorem lookupVar_mem {env : VEnv} {n : String} {v : Val} (h : lookupVar env n = some v) : (n, v) ∈ env := by
+  unfold lookupVar at h
+  rw [Option.map_eq_some_iff] at h
+  obtain ⟨⟨n', v'⟩, hf, hv⟩ := h
+  have hp := List.find?_some hf
+  have hm := List.mem_of_find?_eq_some hf
+  simp only [decide_eq_true_eq] at hp
+  simp only at hv
+  subst hp hv
+  exact hm
+
+theorem EnvTyped.snoc {decls : List VarDecl} {env : VEnv} (h : EnvTyped decls env) {n : String} {v : Val}
+    (hv : ∀ a, v = .acct a → ∃ d ∈ decls, d.name = n ∧ d.ty = .account) : EnvTyped decls (env ++ [(n, v)]) := by
+  intro n' a hm
+  rcases List.mem_append.mp hm with hm | hm
+  · exact h n' a hm
+  · simp only [List.mem_singleton, Prod.mk.injEq] at hm
+    obtain ⟨rfl, hva⟩ := hm
+    exact hv a hva.symm
+
+/-- one step of the fold in `bindPlain` -/
+def bindStep (vars : List (String × String)) (acc : Except Err VEnv) (d : VarDecl) : Except Err VEnv :=
+  match acc with
+  | .error er => .error er
+  | .ok env =>
+    match (vars.find? (·.1 = d.name)).map (·.2) with
+    | none => .error .invalidVars
+    | some raw => match parseValue d.ty raw with
+      | none => .error .invalidVars
+      | some v => .ok (env ++ [(d.name, v)])
+
+theorem bindStep_ok {vars : List (String × String)} {acc : Except Err VEnv} {d : VarDecl} {e0 : VEnv}
+    (h : bindStep vars acc d = .ok e0) : ∃ e1 raw v, acc = .ok e1 ∧ parseValue d.ty raw = some v ∧ e0 = e1 ++ [(d.name, v)] := by
+  unfold bindStep at h
+  split at h
+  · cases h
+  · rename_i e1
+    split at h
+    · cases h
+    · rename_i raw _
+      split at h
+      · cases h
+      · rename_i v hpv
+        simp only [Except.ok.injEq] at h
+        exact ⟨e1, raw, v, rfl, hpv, h.symm⟩
+
+theorem bindFold_typed {decls : List VarDecl} (vars : List (String × String)) :
+    (ds : List VarDecl) → (acc : Except Err VEnv) → (env : VEnv) → (∀ d ∈ ds, d ∈ decls) →
+    (∀ e0, acc = .ok e0 → EnvTyped decls e0) → ds.foldl (bindStep vars) acc = .ok env → EnvTyped decls env
+  | [], acc, env, _, hacc, hf => hacc env hf
+  | d :: ds, acc, env, hsub, hacc, hf => by
+    rw [List.foldl_cons] at hf
+    refine bindFold_typed vars ds _ env (fun x hx => hsub x (List.mem_cons_of_mem _ hx)) ?_ hf
+    intro e0 he0
+    obtain ⟨e1, raw, v, rfl, hpv, rfl⟩ := bindStep_ok he0
+    refine (hacc e1 rfl).snoc ?_
+    intro a hva
+    subst hva
+    exact ⟨d, hsub d List.mem_cons_self, rfl, parseValue_acct hpv⟩
+
+theorem bindPlain_eq (decls : List VarDecl) (vars : List (String × String)) :
+    bindPlain decls vars =
+      (match (decls.filter (fun d => match d.origin with | .none => true | _ => false)).foldl (bindStep vars) (.ok []) with
+       | .error er => .error er
+       | .ok env =>
+         if vars.all (fun kv => (decls.filter (fun d => match d.origin with | .none => true | _ => false)).any
+            (fun d => d.name = kv.1)) then .ok env else .error .invalidVars) := by
+  unfold bindPlain
+  rfl
+
+theorem bindPlain_typed {decls : List VarDecl} {vars : List (String × String)} {env : VEnv}
+    (h : bindPlain decls vars = .ok env) : EnvTyped decls env := by
+  rw [bindPlain_eq] at h
+  split at h
+  · cases h
+  · rename_i env0 hfold
+    split at h
+    · simp only [Except.ok.injEq] at h
+      subst h
+      exact bindFold_typed vars _ _ _ (fun d hd => (List.mem_filter.mp hd).1) (fun e0 he0 => by
+        simp only [Except.ok.injEq] at he0; subst he0; intro n a hm; cases hm) hfold
+    · cases h
+
+theorem resolveVars_typed {decls : List VarDecl} (store : Store) {plain : VEnv} (hp : EnvTyped decls plain) :
+    (ds : List VarDecl) → (env env' : VEnv) → (∀ d ∈ ds, d ∈ decls) → EnvTyped decls env →
+    resolveVars store plain ds env = .ok env' → EnvTyped decls env'
+  | [], env, env', _, he, h => by
+    simp only [resolveVars, Except.ok.injEq] at h
+    subst h; exact he
+  | d :: ds, env, env', hsub, he, h => by
+    have hsub' : ∀ x ∈ ds, x ∈ decls := fun x hx => hsub x (List.mem_cons_of_mem _ hx)
+    have hd : d ∈ decls := hsub d List.mem_cons_self
+    unfold resolveVars at h
+    split at h
+    · -- plain variable
+      split at h
+      · rename_i v hl
+        refine resolveVars_typed store hp ds _ env' hsub' (he.snoc ?_) h
+        intro a hva
+        subst hva
+        exact hp d.name a (lookupVar_mem hl)
+      · cases h
+    · -- meta
+      split at h
+      · cases h
+      · split at h
+        · cases h
+        · split at h
+          · cases h
+          · rename_i v hpv
+            refine resolveVars_typed store hp ds _ env' hsub' (he.snoc ?_) h
+            intro a hva
+            subst hva
+            exact ⟨d, hd, rfl, parseValue_acct hpv⟩
+    · -- balance
+      split at h
+      · cases h
+      · split at h
+        · cases h
+        · refine resolveVars_typed store hp ds _ env' hsub' (he.snoc ?_) h
+          intro a hva
+          cases hva
+
+theorem prepare_typed {P : Script} {req : Request} {store : Store} {env : VEnv} (h : prepare P req store = .ok env) :
+    EnvTyped P.vars env := by
+  unfold prepare at h
+  split at h
+  · cases h
+  · split at h
+    · cases h
+    · rename_i plain hb
+      exact resolveVars_typed store (bindPlain_typed hb) P.vars [] env (fun d hd => hd)
+        (by intro n a hm; cases hm) h
+
+/-- an account held by a variable of a prepared environment is enumerated by `lockRead` -/
+theorem isVarAcct_varAccts {P : Script} {req : Request} {store : Store} {env : VEnv}
+    (h : prepare P req store = .ok env) {a : Acct} (hv : IsVarAcct env a) : a ∈ varAccts P env := by
+  obtain ⟨n, hl⟩ := hv
+  obtain ⟨d, hd, hn, ht⟩ := prepare_typed h n a (lookupVar_mem hl)
+  exact mem_varAccts hd ht (by rw [hn]; exact hl)
+
+/-! ### the whole run -/
+
+/-- a successful run, with the lock sets and the list of balances it reports -/
+theorem run_inv_locks {P : Script} {req : Request} {store : Store} {r : Result} (h : run P req store = .ok r) :
+    ∃ env F, prepare P req store = .ok env ∧
+      evalStmts env P.stmts { st := { bal := initBal store (needed env P.stmts), postings := [] } } = .ok F ∧
+      r.postings = F.st.postings ∧ r.lockRead = lockRead P env ∧ r.lockWrite = lockWrite P env ∧
+      r.finalBal.map (·.1) = run.dedupPairs (needed env P.stmts) := by
+  simp only [run] at h
+  cases hp : prepare P req store with
+  | error er => simp [hp] at h
+  | ok env =>
+    simp only [hp] at h
+    cases hc : checkBalanceVars env P.vars with
+    | error er => simp [hc] at h
+    | ok u =>
+      simp only [hc] at h
+      cases he : evalStmts env P.stmts { st := { bal := initBal store (needed env P.stmts), postings := [] } } with
+      | error er => simp [he] at h
+      | ok F =>
+        simp only [he] at h
+        split at h
+        · cases h
+        · simp only [Except.ok.injEq] at h
+          refine ⟨env, F, rfl, he, ?_, ?_, ?_, ?_⟩ <;> rw [← h]
+          simp [List.map_map, Function.comp_def]
+
+/-- **every posting of an accepted run**: its source is one of the accounts in source position (as evaluated), its
+destination is an account literal of a statement or the value of a variable declared `account` -/
+theorem run_postings_locked {P : Script} {req : Request} {store : Store} {r : Result} (h : run P req store = .ok r) :
+    ∀ p ∈ r.postings, (p.src = "world" ∨ p.src ∈ r.lockWrite) ∧ (p.dst = "world" ∨ p.dst ∈ r.lockRead) := by
+  obtain ⟨env, F, hp, he, hpost, hR, hW, _⟩ := run_inv_locks h
+  have hV : ∀ a, IsVarAcct env a → (a ∈ P.stmts.flatMap stmtLits ∨ a ∈ varAccts P env) :=
+    fun a ha => Or.inr (isVarAcct_varAccts hp ha)
+  have := evalStmts_locks (S := (· ∈ P.stmts.flatMap (stmtSources env)))
+    (D := fun a => a ∈ P.stmts.flatMap stmtLits ∨ a ∈ varAccts P env) hV P.stmts _ F he (fun a ha => ha)
+    (fun a ha => Or.inl ha)
+  obtain ⟨new, hnew, hall⟩ := this
+  simp only [List.nil_append] at hnew
+  intro p hpm
+  rw [hpost, hnew] at hpm
+  obtain ⟨hs, hd⟩ := hall p hpm
+  constructor
+  · by_cases hw : p.src = "world"
+    · exact Or.inl hw
+    · right; rw [hW, mem_lockWrite]; exact ⟨hs, hw⟩
+  · by_cases hw : p.dst = "world"
+    · exact Or.inl hw
+    · right; rw [hR, mem_lockRead]
+      exact ⟨hd.elim (fun x => Or.inr (Or.inl x)) (fun x => Or.inr (Or.inr x)), hw⟩
+
+/-- every write-locked account is also in the read set (as `involvedAccounts ⊇ involvedSources` in the code) -/
+theorem run_lockWrite_subset {P : Script} {req : Request} {store : Store} {r : Result} (h : run P req store = .ok r) :
+    ∀ a ∈ r.lockWrite, a ∈ r.lockRead := by
+  obtain ⟨env, F, hp, _, _, hR, hW, _⟩ := run_inv_locks h
+  intro a ha
+  rw [hW, mem_lockWrite] at ha
+  rw [hR, mem_lockRead]
+  refine ⟨?_, ha.2⟩
+  obtain ⟨s, hs, has⟩ := List.mem_flatMap.mp ha.1
+  rcases stmtSources_origin env s a has with hl | hv
+  · exact Or.inr (Or.inl (List.mem_flatMap.mpr ⟨s, hs, hl⟩))
+  · exact Or.inr (Or.inr (isVarAcct_varAccts hp hv))
+
 end Num
